@@ -70,8 +70,11 @@ FIELD_CLASSES_BY_CLASS = {
     ("Module._NodeSet", "_node"): "Module",
     ("IR._ModuleList", "_node"): "IR",
     ("ByteInterval._SymbolicExprDict", "_interval"): "ByteInterval",
-    ("Module", "sections"): "Module._NodeSet", ("Module", "symbols"): "Module._NodeSet",
-    ("Module", "proxies"): "Module._NodeSet",
+    ("Module", "sections"): ("Module._NodeSet", "Section"), ("Module", "symbols"): ("Module._NodeSet", "Symbol"),
+    ("Module", "proxies"): ("Module._NodeSet", "ProxyBlock"),
+    ("Section", "byte_intervals"): ("Section._ByteIntervalSet", "ByteInterval"),
+    ("ByteInterval", "blocks"): ("ByteInterval._BlockSet", "ByteBlock"),
+    ("IR", "modules"): ("IR._ModuleList", "Module"),
 }
 
 
@@ -130,6 +133,8 @@ class Schema:
     def post_read(self, obj, attr, sv):
         if obj.cls == "LazyIntervalTree" and attr == "_value_collection" and obj.x in self.LIT:
             return SV(sv.k, sv.t, cls=self.LIT[obj.x][1], x=sv.x, wb=sv.wb)
+        if attr == "_data" and isinstance(obj.x, str) and sv.k in ("set", "list"):
+            return SV(sv.k, sv.t, cls=obj.x, x=sv.x, wb=sv.wb)      # element class of an owning collection
         if obj.cls == "LazyIntervalTree" and attr == "_interval_index":
             return SV(sv.k, sv.t, cls="$IntervalTree", x=obj.x, wb=sv.wb)
         return sv
@@ -139,6 +144,8 @@ class Schema:
             return z3.ArraySort(Int, Int)
         if key == "$alive":
             return z3.ArraySort(Int, Bool)
+        if key == "$modpos":
+            return z3.ArraySort(Int, Int)
         base = key.split("#")[0]
         kind = None
         for (k, knd, _c) in FIELDS.values():
@@ -399,8 +406,8 @@ class Schema:
             for ob in outer:
                 inner = eng.bags_of(ob.elem, st)
                 for ib in inner:
-                    news, cond, elem = ib.instantiate("ch")
-                    res.append(Bag(ob.binders + news, z3.And(ob.cond, cond), elem, tag=ib.tag))
+                    res.append(Bag(ob.binders + ib.binders, z3.And(ob.cond, ib.cond), ib.elem, tag=ib.tag,
+                                   defs=z3.And(ob.defs, ib.defs), aux=ob.aux + ib.aux))
             return SV("gen", x=res)
         if name == "itertools.chain":
             res = []
